@@ -74,3 +74,198 @@ Proof. induction windows as [|[a n] r IH]; intros; cbn; [reflexivity | f_equal; 
 Lemma tune_example :
   0 < 1 / 2 /\ (1 <= 3)%Z /\ 0 <= hat_acc 1 2 <= 1 /\ 0 <= star_mh <= 1 /\ 0 <= star_pcn <= 1 /\ 0 <= star_cw 2 <= 1.
 Proof. unfold hat_acc, star_mh, star_pcn, star_cw. repeat split; try lra; try lia. Qed.
+
+(* ---- round 5: monotonicity in the acceptance rate, for every tuning window and every run of windows -------------- *)
+(* the observed rate of a window of n > 0 flags of which a are set lies in [0,1] and is monotone in a *)
+Lemma hat_acc_range a n : (0 <= a <= n)%Z -> (0 < n)%Z -> 0 <= hat_acc a n <= 1.
+Proof.
+  intros [Ha Han] Hn. unfold hat_acc.
+  assert (N : 0 < IZR n) by (apply IZR_lt in Hn; exact Hn).
+  assert (A : 0 <= IZR a) by (apply IZR_le in Ha; exact Ha).
+  assert (AN : IZR a <= IZR n) by (apply IZR_le; exact Han).
+  split.
+  - apply Rmult_le_pos; [exact A | left; apply Rinv_0_lt_compat; exact N].
+  - apply (Rmult_le_reg_r (IZR n)); [exact N|]. unfold Rdiv. rewrite Rmult_assoc, Rinv_l; lra.
+Qed.
+
+Lemma hat_acc_mono a1 a2 n : (0 < n)%Z -> (a1 <= a2)%Z -> hat_acc a1 n <= hat_acc a2 n.
+Proof.
+  intros Hn Ha. unfold hat_acc, Rdiv. apply Rmult_le_compat_r.
+  - left. apply Rinv_0_lt_compat. apply IZR_lt in Hn. exact Hn.
+  - apply IZR_le. exact Ha.
+Qed.
+
+Lemma star_cw_range d : (1 <= d)%Z -> 0 <= star_cw d <= 1.
+Proof.
+  intro H. unfold star_cw. assert (D : 1 <= IZR d) by (apply IZR_le in H; exact H).
+  assert (I : 0 < / IZR d <= 1).
+  { split; [apply Rinv_0_lt_compat; lra|]. rewrite <- Rinv_1. apply Rinv_le_contravar; lra. }
+  unfold Rdiv. nra.
+Qed.
+
+(* the update is monotone in the observed acceptance rate (strictly, before clipping) and in the previous parameter *)
+Lemma tune_temp_mono_h lam k h1 h2 star : (1 <= k)%Z -> h1 <= h2 -> tune_temp lam k h1 star <= tune_temp lam k h2 star.
+Proof.
+  intros Hk H. unfold tune_temp. pose proof (zeta_pos k Hk) as [Z0 _].
+  assert (E : ln lam + zeta k * (h1 - star) <= ln lam + zeta k * (h2 - star)).
+  { apply Rplus_le_compat_l. apply Rmult_le_compat_l; lra. }
+  destruct E as [E|E]; [left; apply exp_increasing; exact E | right; rewrite E; reflexivity].
+Qed.
+
+Lemma tune_temp_strict_h lam k h1 h2 star : (1 <= k)%Z -> h1 < h2 -> tune_temp lam k h1 star < tune_temp lam k h2 star.
+Proof.
+  intros Hk H. unfold tune_temp. pose proof (zeta_pos k Hk) as [Z0 _]. apply exp_increasing.
+  apply Rplus_lt_compat_l. apply Rmult_lt_compat_l; lra.
+Qed.
+
+Lemma tune_temp_mono_lam lam1 lam2 k h star : 0 < lam1 -> lam1 <= lam2 -> tune_temp lam1 k h star <= tune_temp lam2 k h star.
+Proof.
+  intros H1 H. unfold tune_temp.
+  assert (E : ln lam1 <= ln lam2) by (destruct H as [H|H]; [left; apply ln_increasing; assumption | right; rewrite H; reflexivity]).
+  assert (E2 : ln lam1 + zeta k * (h - star) <= ln lam2 + zeta k * (h - star)) by lra.
+  destruct E2 as [E2|E2]; [left; apply exp_increasing; exact E2 | right; rewrite E2; reflexivity].
+Qed.
+
+Lemma tune_scale_mono_h lam k h1 h2 star : (1 <= k)%Z -> h1 <= h2 -> tune_scale lam k h1 star <= tune_scale lam k h2 star.
+Proof. intros Hk H. unfold tune_scale. apply Rle_min_compat_r. apply tune_temp_mono_h; assumption. Qed.
+
+(* one window: more accepted flags in a window of the same length never give a smaller scale; the adapted scale stays in (0,1] *)
+Lemma tune_window_mono lam k star a1 a2 n :
+  (1 <= k)%Z -> (0 < n)%Z -> (a1 <= a2)%Z ->
+  tune_scale lam k (hat_acc a1 n) star <= tune_scale lam k (hat_acc a2 n) star /\
+  0 < tune_scale lam k (hat_acc a1 n) star <= 1.
+Proof.
+  intros Hk Hn Ha. split; [apply tune_scale_mono_h; [exact Hk | apply hat_acc_mono; assumption] | apply tune_scale_bounds].
+Qed.
+
+(* the scales of a run are the clipped parameters; every parameter of a run is positive *)
+Lemma tune_seq_clip windows : forall lam k star, tune_seq lam k star windows = map (fun t => Rmin t 1) (tune_temps lam k star windows).
+Proof. induction windows as [|[a n] r IH]; intros; cbn [tune_seq tune_temps map]; [reflexivity | f_equal; apply IH]. Qed.
+
+Lemma tune_temps_pos windows : forall lam k star, Forall (fun t => 0 < t) (tune_temps lam k star windows).
+Proof. induction windows as [|[a n] r IH]; intros; cbn [tune_temps]; constructor; [apply tune_temp_pos | apply IH]. Qed.
+
+(* two runs whose windows have pointwise ordered acceptance rates (and ordered starting parameters): the parameters and the
+   scales are ordered after EVERY adaptation step *)
+Definition win_le (w1 w2 : Z * Z) : Prop := hat_acc (fst w1) (snd w1) <= hat_acc (fst w2) (snd w2).
+
+Lemma tune_temps_mono w1 : forall w2 lam1 lam2 k star,
+  Forall2 win_le w1 w2 -> 0 < lam1 -> lam1 <= lam2 -> (1 <= k)%Z ->
+  Forall2 Rle (tune_temps lam1 k star w1) (tune_temps lam2 k star w2).
+Proof.
+  induction w1 as [|[a1 n1] r1 IH]; intros w2 lam1 lam2 k star HW H1 H12 Hk; inversion HW as [|? [a2 n2] ? r2 Hw Hr]; subst.
+  - constructor.
+  - cbn [tune_temps]. unfold win_le in Hw. cbn [fst snd] in Hw.
+    assert (S1 : tune_temp lam1 k (hat_acc a1 n1) star <= tune_temp lam2 k (hat_acc a2 n2) star).
+    { eapply Rle_trans; [apply tune_temp_mono_h; [exact Hk | exact Hw] | apply tune_temp_mono_lam; assumption]. }
+    constructor; [exact S1|].
+    apply IH; [exact Hr | apply tune_temp_pos | exact S1 | lia].
+Qed.
+
+Lemma Forall2_map_Rmin l1 : forall l2, Forall2 Rle l1 l2 -> Forall2 Rle (map (fun t => Rmin t 1) l1) (map (fun t => Rmin t 1) l2).
+Proof.
+  induction l1 as [|a r IH]; intros l2 H; inversion H; subst; cbn [map]; constructor.
+  - apply Rle_min_compat_r. assumption.
+  - apply IH. assumption.
+Qed.
+
+Lemma tune_seq_mono w1 w2 lam1 lam2 k star :
+  Forall2 win_le w1 w2 -> 0 < lam1 -> lam1 <= lam2 -> (1 <= k)%Z ->
+  Forall2 Rle (tune_seq lam1 k star w1) (tune_seq lam2 k star w2).
+Proof. intros. rewrite !tune_seq_clip. apply Forall2_map_Rmin. apply tune_temps_mono; assumption. Qed.
+
+(* the hypotheses of tune_log_step hold for every window the samplers form and for the three target rates they use *)
+Lemma tune_window_vanishing lam k a n star :
+  0 < lam -> (1 <= k)%Z -> (0 <= a <= n)%Z -> (0 < n)%Z ->
+  (star = star_mh \/ star = star_pcn \/ exists d, (1 <= d)%Z /\ star = star_cw d) ->
+  Rabs (ln (tune_temp lam k (hat_acc a n) star) - ln lam) <= zeta k.
+Proof.
+  intros Hl Hk Ha Hn Hs. apply tune_log_step; [exact Hl | exact Hk | apply hat_acc_range; assumption |].
+  destruct Hs as [->|[->|[d [Hd ->]]]]; [unfold star_mh; lra | unfold star_pcn; lra | apply star_cw_range; exact Hd].
+Qed.
+
+Lemma tune_mono_example :
+  Forall2 win_le [(1, 4); (0, 4)]%Z [(3, 4); (2, 4)]%Z /\ 0 < 1 / 4 /\ 1 / 4 <= 1 / 2 /\ (1 <= 1)%Z /\ (0 <= 3 <= 4)%Z /\ (0 < 4)%Z.
+Proof.
+  repeat split; try lra; try lia.
+  repeat constructor; unfold win_le, hat_acc; cbn [fst snd]; lra.
+Qed.
+
+(* ---- the windows tune() reads: flags are 0/1, so the rate of every non-empty window is in [0,1]; under the call pattern of
+        warmup() (the i-th call sees a history of (i+1)*T entries) both window conventions select the same T flags -------------- *)
+Definition flags (w : list Z) : Prop := Forall (fun b => (0 <= b <= 1)%Z) w.
+
+Lemma zsum_flags w : flags w -> (0 <= zsum w <= Z.of_nat (length w))%Z.
+Proof.
+  induction w as [|b r IH]; intro H; [cbn; lia|]. inversion H; subst. specialize (IH H3).
+  cbn [zsum fold_right length]. fold (zsum r). lia.
+Qed.
+
+Lemma flags_skipn n w : flags w -> flags (skipn n w).
+Proof. revert w. induction n as [|n IH]; intros w H; [exact H|]. destruct w as [|b r]; [exact H|]. inversion H; subst. cbn. apply IH. assumption. Qed.
+
+Lemma flags_firstn n w : flags w -> flags (firstn n w).
+Proof. revert w. induction n as [|n IH]; intros w H; [constructor|]. destruct w as [|b r]; [constructor|]. inversion H; subst. cbn. constructor; [assumption | apply IH; assumption]. Qed.
+
+Lemma win_rate_range w : flags w -> w <> nil -> 0 <= win_rate w <= 1.
+Proof.
+  intros H Hn. unfold win_rate. apply hat_acc_range; [apply zsum_flags; exact H|].
+  destruct w; [congruence | cbn [length]; lia].
+Qed.
+
+Lemma win_last_length T acc : length (win_last T acc) = Nat.min T (length acc).
+Proof. unfold win_last. rewrite skipn_length. lia. Qed.
+
+Lemma win_slice_length T i acc : length (win_slice T i acc) = Nat.min T (length acc - i * T).
+Proof. unfold win_slice. rewrite firstn_length, skipn_length. reflexivity. Qed.
+
+(* warmup(): tune(T, i) is called when the history holds exactly (i+1)*T entries *)
+Lemma windows_coincide T i acc : length acc = ((i + 1) * T)%nat -> win_last T acc = win_slice T i acc /\ length (win_last T acc) = T.
+Proof.
+  intro H. unfold win_last, win_slice.
+  assert (E : (length acc - T = i * T)%nat) by lia. rewrite E. split.
+  - symmetry. apply firstn_all2. rewrite skipn_length. lia.
+  - rewrite skipn_length. lia.
+Qed.
+
+(* every tune() call on a 0/1 history with a non-empty window: positive parameter, scale in (0,1], vanishing log-step -- with NO
+   hypothesis on the observed rate left *)
+Lemma tune_call_sound (cw : bool) T i acc lam star :
+  0 < lam -> flags acc -> (if cw then win_slice T i acc else win_last T acc) <> nil ->
+  (star = star_mh \/ star = star_pcn \/ exists d, (1 <= d)%Z /\ star = star_cw d) ->
+  0 < tune_call cw T i acc lam star /\ 0 < Rmin (tune_call cw T i acc lam star) 1 <= 1 /\
+  Rabs (ln (tune_call cw T i acc lam star) - ln lam) <= zeta (Z.of_nat i + 1).
+Proof.
+  intros Hl Hf Hn Hs. unfold tune_call. set (w := if cw then win_slice T i acc else win_last T acc) in *.
+  assert (Fw : flags w) by (unfold w; destruct cw; [apply flags_firstn, flags_skipn; exact Hf | apply flags_skipn; exact Hf]).
+  split; [apply tune_temp_pos|]. split; [apply (tune_scale_bounds lam (Z.of_nat i + 1) (win_rate w) star)|].
+  apply tune_log_step; [exact Hl | lia | apply win_rate_range; assumption |].
+  destruct Hs as [->|[->|[d [Hd ->]]]]; [unfold star_mh; lra | unfold star_pcn; lra | apply star_cw_range; exact Hd].
+Qed.
+
+(* monotone in the flags: a window that is pointwise larger gives a larger-or-equal parameter and scale *)
+Lemma zsum_mono w1 : forall w2, Forall2 Z.le w1 w2 -> (zsum w1 <= zsum w2)%Z /\ length w1 = length w2.
+Proof.
+  induction w1 as [|a r IH]; intros w2 H; inversion H; subst; [split; [cbn; lia | reflexivity]|].
+  destruct (IH _ H4) as [I1 I2]. cbn [zsum fold_right length]. fold (zsum r). fold (zsum l'). split; [lia | congruence].
+Qed.
+
+Lemma win_rate_mono w1 w2 : Forall2 Z.le w1 w2 -> w1 <> nil -> win_rate w1 <= win_rate w2.
+Proof.
+  intros H Hn. destruct (zsum_mono w1 w2 H) as [S L]. unfold win_rate. rewrite <- L.
+  apply hat_acc_mono; [destruct w1; [congruence | cbn [length]; lia] | exact S].
+Qed.
+
+Lemma tune_flags_mono lam i star w1 w2 :
+  Forall2 Z.le w1 w2 -> w1 <> nil ->
+  tune_temp lam (Z.of_nat i + 1) (win_rate w1) star <= tune_temp lam (Z.of_nat i + 1) (win_rate w2) star /\
+  tune_scale lam (Z.of_nat i + 1) (win_rate w1) star <= tune_scale lam (Z.of_nat i + 1) (win_rate w2) star.
+Proof.
+  intros H Hn. pose proof (win_rate_mono w1 w2 H Hn) as M.
+  split; [apply tune_temp_mono_h | apply tune_scale_mono_h]; try exact M; lia.
+Qed.
+
+Lemma window_example :
+  flags [1; 0; 1; 1; 0; 1]%Z /\ length [1; 0; 1; 1; 0; 1]%Z = ((1 + 1) * 3)%nat /\ win_last 3 [1; 0; 1; 1; 0; 1]%Z = [1; 0; 1]%Z /\
+  win_slice 3 1 [1; 0; 1; 1; 0; 1]%Z = [1; 0; 1]%Z /\ Forall2 Z.le [0; 0; 1]%Z [1; 0; 1]%Z.
+Proof. repeat split; repeat constructor; lia. Qed.
